@@ -509,6 +509,18 @@ func (c18) Gen(rng *rand.Rand, tier string, emit func(string)) {
 		cmd("obiconvert", "paired1", 30, 0, fm) // the first one
 	}
 	cmd("obiconvert", "nofault-paired", 30, 0, "fastq")
+	// the side files of obiclean (--save-ratio FILE, --save-graph DIR): outputs written by the main goroutine before the
+	// writer of the sequences starts (harness/c18_side.go, Model/WriteSide.lean, Props/C18S.lean)
+	cmd("obiclean", "side-ratio-devfull", 3, 0, "fasta")   // the table fits the buffer: the fault shows at Flush
+	cmd("obiclean", "side-ratio-devfull", 150, 0, "fasta") // several buffers
+	cmd("obiclean", "side-ratio-nodir", 3, 0, "fasta")
+	cmd("obiclean", "side-ratio-isdir", 3, 0, "fasta")
+	cmd("obiclean", "side-graph-devfull", 3, 0, "fasta")
+	cmd("obiclean", "side-graph-isdir", 3, 0, "fasta")
+	cmd("obiclean", "side-graph-mkdir", 3, 0, "fasta")
+	cmd("obiclean", "nofault-side-ratio", 150, 0, "fasta")
+	cmd("obiclean", "nofault-side-graph", 5, 0, "fasta")
+	cmd("obiclean", "nofault-side-both", 1+rng.Intn(40), 0, "fasta")
 	// second outputs written by a goroutine that registers its pipes itself (dynamic registration, Props/C18Reg.lean)
 	for _, name := range []string{"obigrep", "obimultiplex", "obitagpcr"} {
 		cmd(name, "dyn-devfull", 3, 0, "fasta")
@@ -1519,7 +1531,7 @@ func c18BuildCommands() error {
 		}
 		os.MkdirAll(c18CmdDir(), 0o755)
 		args := []string{"build", "-o", c18CmdDir() + "/"}
-		for _, n := range append(append([]string{}, c18Commands...), c18DynCommands...) {
+		for _, n := range append(append(append([]string{}, c18Commands...), c18DynCommands...), c18SideCommands...) {
 			args = append(args, "./cmd/obitools/"+n)
 		}
 		cmd := exec.Command("go", args...)
@@ -1616,6 +1628,9 @@ func c18Cmd(f []string) (res c18Res) {
 	}
 	if len(f) < 6 {
 		return bad("", "")
+	}
+	if f[1] == "obiclean" {
+		return c18CmdSide(f) // the side files of obiclean: harness/c18_side.go
 	}
 	name, sc, fm := f[1], f[2], f[5]
 	n, e1 := strconv.Atoi(f[3])
